@@ -104,6 +104,12 @@ func runC09(c *fw.Case) {
 	if c.R.Intn(2) == 0 {
 		amt = new(big.Int).Add(new(big.Int).Rand(c.R, pool.locked()), big.NewInt(1))
 	}
+	if (c.Index/c09Combos())%2 == 1 {
+		// every second repetition of a combination sends nothing at all: a zero amount passes
+		// the stateless checks, and "nothing to transfer" must not be a way around the
+		// existence guard
+		amt = big.NewInt(0)
+	}
 	locked := e.n.App.BankKeeper.LockedCoins(e.n.Ctx(), cva.Addr)
 	var op vOp
 	switch mk {
